@@ -90,6 +90,7 @@ struct WorldCfg {
     bool with_control = true;
     bool with_error_cb = true;
     bool with_flush = true;
+    bool control_err = false;   // the control (SRQ) callback reports failure
 };
 
 using Handler = std::function<scpi_result_t(World &)>;
